@@ -130,7 +130,8 @@ func render(e *E, mode ParenMode, out *[]Tok) {
 		*out = append(*out, Tok{e.V, "num"})
 	case "lit":
 		q := "'"
-		if strings.Contains(e.V, "'") {
+		if strings.Contains(e.V, "'") || (len(e.V)%2 == 0 && strings.Contains(e.V, "\\") && !strings.Contains(e.V, "\"")) {
+			// (a literal with a backslash is written in either quote, by the parity of its length)
 			q = "\""
 		}
 		*out = append(*out, Tok{q + e.V + q, "lit"})
